@@ -62,3 +62,51 @@ def neg_truth(v):
     t = truth(v)
     if isinstance(t, B): return t.neg()
     return not t
+
+
+# ------------------------------------------------------------------ feasibility of paths w.r.t. known constants
+def const_env():
+    """numeric values of the named constants (machine epsilons, pi): used only to discard branch outcomes that contradict them"""
+    from fractions import Fraction
+    import math
+    from . import alg
+    env = {}
+    for name, val in (('eps:f32', Fraction(1, 2 ** 23)), ('eps:f64', Fraction(1, 2 ** 52)), ('pi', Fraction(math.pi))):
+        k = ('const', name)
+        if k in alg._ATOM_IDX: env[alg._ATOM_IDX[k]] = val
+    return env
+
+
+def cond_leaves(p):
+    out = []
+    for c in p.conds: out.extend(conj_leaves(c))
+    return out
+
+
+def feasible(p, env=None):
+    """False when some branch condition of the path mentions only named constants and is false for their values"""
+    from . import alg
+    env = env if env is not None else const_env()
+    for c in cond_leaves(p):
+        if not isinstance(c, B) or c.k not in ('gt0', 'ge0', 'eq0', 'ne0'): continue
+        at = c.atoms()
+        if at and all(a in env for a in at):
+            if not c.eval(env): return False
+    return True
+
+
+def feasible_paths(res):
+    env = const_env()
+    return [p for p in res.paths if feasible(p, env)]
+
+
+def nonconst_conds(p):
+    """branch conditions of a path without those decided by named constants alone"""
+    env = const_env()
+    out = []
+    for c in cond_leaves(p):
+        if isinstance(c, B) and c.k == 'const': continue
+        at = c.atoms() if isinstance(c, B) else set()
+        if at and all(a in env for a in at): continue
+        out.append(c)
+    return out
